@@ -4,6 +4,7 @@ ensure_file_removed}, cache_dir::CacheDir::{get, touch, set, put} and sharded::{
 Cache::{get, touch, set, put}}.  Same method as smt_stack: every callee uninterpreted with each
 outcome its type allows; rules over the sequence of effectful calls (callee, identities passed,
 outcome) and the value returned, for every path of the MIR."""
+import os
 import re
 
 from . import mir
@@ -567,6 +568,69 @@ def native_protocol(scratch):
     return _first_reproduced(outs)
 
 
+def native_put_atomic(scratch):
+    """put's presence test and its publication are one step: a peer that publishes the key right before our
+    publishing call (whatever system call that is) must win - put never overwrites."""
+    import shutil
+    import subprocess
+    import tempfile
+    import time
+    nat, sc = _native(scratch)
+    bad = []
+    tried = []
+    for profile in ("debug", "release"):
+        scen = plain_scen(4, present=False)
+        root0 = nat.sandbox()
+        try:
+            nat.materialise(root0, scen)
+            calls = sc.full_strace(nat, sc.op_args(scen, root0), profile)
+        finally:
+            shutil.rmtree(root0, ignore_errors=True)
+        begin = next((i for i, (n, ln) in enumerate(calls) if "kvreplay-marker-begin" in ln), None)
+        if begin is None:
+            continue
+        pub = next((i for i, (n, ln) in enumerate(calls) if i > begin and n in ("rename", "renameat", "renameat2", "link", "linkat") and "/w/ka" in ln), None)
+        if pub is None or pub == 0:
+            continue
+        stop_name = calls[pub - 1][0]
+        count = sum(1 for (nm, _l) in calls[:pub] if nm == stop_name)
+        root = nat.sandbox()
+        try:
+            nat.materialise(root, scen)
+            args = sc.op_args(scen, root)
+            slog = tempfile.mktemp(prefix="kvr-strace-")
+            cmd = ["strace", "-f", "-y", "-o", slog, "-e", "trace=%file,%desc", "-e", "inject=%s:signal=SIGSTOP:when=%d" % (stop_name, count), nat.bins[profile]] + [str(a) for a in args]
+            p_ = subprocess.Popen(cmd, stdout=subprocess.PIPE, stderr=subprocess.PIPE)
+            t0 = time.time()
+            stopped = False
+            while time.time() - t0 < 30 and p_.poll() is None:
+                try:
+                    txt = open(slog, errors="replace").read()
+                except OSError:
+                    txt = ""
+                m = re.search(r"^(\d+)\s+--- stopped by SIGSTOP ---", txt, re.M)
+                if m:
+                    sc.apply_env_action(root, dict(action="publish", path="w/ka", file=dict(content=100)))
+                    os.kill(int(m.group(1)), 18)
+                    stopped = True
+                    break
+                time.sleep(0.02)
+            if not stopped and p_.poll() is None:
+                p_.kill()
+            out, _e = p_.communicate(timeout=60)
+            if os.path.exists(slog):
+                os.remove(slog)
+            after = sc.snapshot(root)
+            got = after.get("w/ka", {}).get("content")
+            tried.append((profile, stopped, got))
+            if stopped and got != "value-100":
+                bad.append((profile, "a peer published the key right before our %s; afterwards the key holds %r: put overwrote it" % (calls[pub][0], got)))
+        finally:
+            shutil.rmtree(root, ignore_errors=True)
+    r = sc.verdict(bad, plain_scen(4), "put overwrote a value published just before its own publication step", "put lost to the peer natively: %r" % (tried,))
+    return r
+
+
 def native_fresh(scratch):
     nat, sc = _native(scratch)
     return _first_reproduced([sc.o_fresh_not_accessed(plain_scen(3, present=False), nat, ""), sc.o_fresh_not_accessed(plain_scen(4, present=False), nat, "")])
@@ -604,5 +668,5 @@ def native_probe(scratch):
     return _first_reproduced(outs)
 
 
-NATIVE = {"pure": native_estimate, "choice": native_choice2, "probe-order": native_sharded_sweep, "estimate": native_estimate, "bookkeeping": native_estimate, "update": native_protocol, "insert": native_protocol,
+NATIVE = {"pure": native_estimate, "choice": native_choice2, "probe-order": native_sharded_sweep, "estimate": native_estimate, "bookkeeping": native_estimate, "update": native_protocol, "insert": lambda scratch: _first_reproduced([native_protocol(scratch), native_put_atomic(scratch)]),
           "readonly": native_protocol, "probe": native_probe, "fresh": native_fresh, "touch": native_touch, "retry": native_retry}
